@@ -862,7 +862,7 @@ func (e *env) postChangeHook(ot constants.OpType, ts int64, ni string, data ygot
 }
 
 func (e *env) checkHooks() {
-	if e.sc.Cfg.Hooks == "" {
+	if e.sc.Cfg.Hooks == "" || e.sc.Cfg.HookMute {
 		return
 	}
 	if len(e.hookErr) > 0 {
